@@ -469,6 +469,8 @@ impl<S: USet> Eng<S> {
         self.post_check();
     }
     pub fn op_collect(&mut self, i: usize, v: &[u64]) {
+        let v: Vec<u64> = v.iter().map(|&x| S::norm(x)).collect();
+        let v = &v[..];
         self.slots[i] = None;
         let pushed = self.script_n(i, 6000);
         let r = catch_unwind(AssertUnwindSafe(|| alloc::under_test(|| S::collect(v))));
@@ -503,6 +505,8 @@ impl<S: USet> Eng<S> {
         if self.slots[i].is_none() {
             return;
         }
+        let v: Vec<u64> = v.iter().map(|&x| S::norm(x)).collect();
+        let v = &v[..];
         let pushed = self.script_n(i, 6000);
         let r = catch_unwind(AssertUnwindSafe(|| alloc::under_test(|| self.slots[i].as_mut().unwrap().extend(v))));
         let d = self.script_done(pushed);
